@@ -20,20 +20,20 @@ CHECKS = {
    'DESIGN.md 2/C06'),
  'C08': ('exploration',
    'offline contour checker (endpoint welding, degree parity, event-log zero-crossing match) over real marching-squares renders collected through a caller-owned Line2Buffer channel',
-   'All 16 single-cell configurations and all 2x64 edge-adjacent pairs (exhaustive in signs, sampled magnitudes incl. zeros / sub-epsilon) through both 2D renderers via lattice-lookup fields, random dense fields, and analytic circles/boxes with endpoint-accuracy, straight-edge exactness and perimeter bounds.',
+   'All 16 single-cell configurations and all 2x64 edge-adjacent pairs (exhaustive in signs, sampled magnitudes incl. zeros / sub-epsilon) through both 2D renderers via lattice-lookup fields, random dense fields, and analytic circles/boxes with endpoint-accuracy, straight-edge exactness and perimeter bounds; completeness converse on the learned lattice (every sign-changing cell owns a segment; parts of several pieces with empty sample lines between them); renderer values reused for other parts and resolutions.',
    'Sign space exhaustive, magnitudes and shapes sampled; degree exactly 2 demanded only for generic corner values (even degree always).',
    'DESIGN.md 2/C08'),
  'C16': ('exploration',
    'runtime differential monitor: pruned Evaluate vs EvaluateSlow with operand-call counting wrappers; clamp/farthest-corner oracle for MinMaxDist2',
    'Executes the real Box2/Box3.MinMaxDist2, Interval.Overlap and (*UnionSDF2).Evaluate on PRNG-generated boxes, points stratified over all 9/27 position classes (with class boundaries) and unions of 2-12 exact operands under 5 blend kinds, comparing each call with an independent oracle. Held-on-what-was-explored, not a proof.',
-   'Oracles: clamp-based nearest / per-axis farthest squared distance; max(a0,b0)<=min(a1,b1); EvaluateSlow (public reference). Random union operands are exact-distance shapes with material in their boxes (nil operands interleaved); operands that may be empty or that underestimate distances are two pinned known findings (KNOWN-FINDING lines), because no box pruning can be exact for them.',
+   'Oracles: clamp-based nearest / per-axis farthest squared distance; max(a0,b0)<=min(a1,b1); EvaluateSlow (public reference); Multi2D / LineOf2D of off-centre objects inside unions. Random union operands are exact-distance shapes with material in their boxes (nil operands interleaved); operands that may be empty or that underestimate distances are two pinned known findings (KNOWN-FINDING lines), because no box pruning can be exact for them.',
    'DESIGN.md 2/C16'),
 }
 
 CHECKS['C07'] = ('exploration',
    'metamorphic runtime oracle render(f) vs render(2^-k f) compared as multisets + independent finest-cell sweep (every generic sign-changing cell must own output); evaluation counts via counting wrappers',
    'Real MarchingCubesOctree / MarchingSquaresQuadtree renders of 1-Lipschitz fields with a prescribed bounding box; features are placed relative to the learned tree (sphere tangent +-delta to a coarse cube face, vertex on a coarse cube corner, small feature in a coarse cube corner, thin plates, far-apart features). Scaling by 2^-k leaves signs and interpolation ratios bit-identical but disables all pruning, so both outputs must be identical multisets; an independent sweep over all finest cells catches losses common to both renders (e.g. a dropped child).',
-   'Depths 2..7 quick / 2..8 thorough; cases where a value crosses the absolute 1e-12 snap epsilon under scaling are counted and skipped for oracle 1 only. Also: corner clips of 1e-9..1e-2 of a half diagonal, fields undefined (NaN) at finest cube centres, renderer reuse and aborted (panicked, recovered) renders in the history, high-resolution rods / bars (255..2100 octree cells, 33000+ quadtree cells) judged by closure + accuracy + coverage, the latter also in a GOARCH=386 build of the harness (word size).',
+   'Depths 2..7 quick / 2..8 thorough; cases where a value crosses the absolute 1e-12 snap epsilon under scaling are counted and skipped for oracle 1 only. Also: corner clips of 1e-9..1e-2 of a half diagonal, fields undefined (NaN) at finest cube centres, renderer reuse and aborted (panicked, recovered) renders in the history, high-resolution rods / bars (255..2100 octree cells, 33000+ quadtree cells) judged by closure + accuracy + coverage, the latter also in a GOARCH=386 build of the harness (word size); weak fields on deep trees (f vs 2^-k f at 4000..33000 octree cells with features of a few cells next to every box corner; a 4096x4096 quadtree lattice under a field that lets no square be skipped).',
    'DESIGN.md 2/C07')
 CHECKS['C15'] = ('exploration',
    'read-back differential monitor: files written by To3MF/ToDXF/ToSVG/SaveDXF/SaveSVG (scripted renderers for the streaming paths) decoded with independent readers (go3mf, yofu/dxf + raw group-code scan, encoding/xml) and compared with an exact rational rounding oracle',
@@ -54,7 +54,7 @@ CHECKS['C18'] = ('exploration',
 
 CHECKS['C01'] = ('exploration',
    'runtime probing of BoundingBox() vs Evaluate() on constructed shapes: face shell, moat, interior rays and a directed local search for negative values outside the box',
-   'Builds every catalogued constructor of sdf/ and obj/ with PRNG-drawn in-domain parameters and random expression trees over all combinators, then searches the outside of each reported box for material (thin shell on faces/edges/corners, moat to 3x, rays from interior material, shrinking-Gaussian descent constrained outside the box). Finite/ordered boxes are asserted on every shape.',
+   'Builds every catalogued constructor of sdf/ and obj/ with PRNG-drawn in-domain parameters and random expression trees over all combinators, then searches the outside of each reported box for material (thin shell on faces/edges/corners, moat to 3x, rays from interior material, shrinking-Gaussian descent constrained outside the box). Finite/ordered boxes are asserted on every shape. Also: unions built from caller-owned slices that are reused afterwards, and machined parts (a part less a non-convex cutter whose box spans it, leaving a pin standing).',
    'Points of space are sampled (6k quick / 40k thorough probes per shape); blended combinators are outside the enumerated domain of C01; Offset/Shell only over operands whose value bounds the box distance.',
    'DESIGN.md 2/C01')
 CHECKS['C02'] = ('exploration',
@@ -70,13 +70,13 @@ CHECKS['C03'] = ('exploration',
 CHECKS['C12'] = ('fault_enumeration',
    'OS-level fault injection in child processes (RLIMIT_FSIZE at enumerated byte offsets, /dev/full, create failures) with the Go runtime deadlock detector as logical hang oracle; goroutine census (pprof goroutine profile filtered on sdfx frames) at quiescence after each of K renders',
    'Each ToSTL/To3MF/ToDXF/ToSVG call runs on the main goroutine of a child with no timers; if the writer has gone and the renderer blocks on the channel the runtime reports "all goroutines are asleep - deadlock!", which (or a dump with the caller in chan send) is the violation; returned calls print a marker. Fault points: create (7 kinds incl. dangling symlink, symlink loop, path below a regular file, over-long name), /dev/full, size limits at header, first flush, every n-th flush (thorough: all multiples of 4096 +-1, every 7th byte below 400, 60 PRNG offsets), final flush/seek/rewrite. Census: sdfx goroutines after k=1..K renders must not grow after warm-up.',
-   'K=30 quick / 200 thorough renders per sink/renderer; a call that spins is ended by RLIMIT_CPU (40 s) and judged on the CPU it consumed; also scripted multi-part renders (Write, Close, Write ...), non-finite geometry, a child pinned to a single CPU (NumCPU() == 1) and GOMAXPROCS changing between the renders of a census; a wall-clock watchdog expiry is inconclusive, never a violation.',
+   'K=30 quick / 200 thorough renders per sink/renderer; a call that spins is ended by RLIMIT_CPU (40 s) and judged on the CPU it consumed; also scripted multi-part renders (Write, Close, Write ...), non-finite geometry, a child pinned to a single CPU (NumCPU() == 1), GOMAXPROCS changing between the renders of a census and successive renders to one file named through unclean paths (dir/./f, dir//f, dir/sub/../f); a wall-clock watchdog expiry is inconclusive, never a violation.',
    'DESIGN.md 2/C12')
 
 
 CHECKS['C10'] = ('exploration',
    'Go race detector (report blocks parsed and de-duplicated by racing sdfx functions) over a concurrent Evaluate hammer and parallel renders in race-instrumented child processes, plus bitwise comparison of concurrent values with a sequential baseline',
-   'Every catalogued shape and random expression trees (with Cache2D wrappers) are evaluated by NumCPU goroutines in different PRNG orders with repeats, then rendered with NewMarchingCubesUniform; each child announces the shape before it runs so that a fatal runtime error (concurrent map writes) is attributable; overlap is measured (in-flight counter).',
+   'Every catalogued shape and random expression trees (with Cache2D wrappers) are evaluated by NumCPU goroutines in different PRNG orders with repeats, then rendered with NewMarchingCubesUniform; each child announces the shape before it runs so that a fatal runtime error (concurrent map writes) is attributable; overlap is measured (in-flight counter). Long-lived and nested caches, overlapping renders of one shape, every blend function, and unions of non-distance operands behind gate operands that hold each caller until more callers than CPUs are inside the same union at once.',
    'The race detector only reports races on accesses that executed in the schedules observed (3 quick / 12 thorough repetitions per shape).',
    'DESIGN.md 2/C10')
 CHECKS['C11'] = ('exploration',
@@ -88,12 +88,12 @@ CHECKS['C11'] = ('exploration',
 
 CHECKS['C09'] = ('exploration',
    'run-vs-run digest comparison across child processes with varied GOMAXPROCS, perturbing Evaluate wrappers (Gosched/spin/sleep/starve), render histories and simultaneous renders; interleaving fingerprints of the observed evaluation order; Go race detector underneath',
-   'Each (model, renderer, cells, sink) is executed in many race-instrumented children under GOMAXPROCS 1..16, five perturbation policies injected on the harness side of the SDF interface, preceding histories of 0..6 renders and 2..6 simultaneous renders sharing the evaluation pool; triangle/segment sequences, STL/DXF/SVG bytes and decoded 3MF content must have one digest per spec. Race reports inside render/ or the buffer code fail the check.',
+   'Each (model, renderer, cells, sink) is executed in many race-instrumented children under GOMAXPROCS 1..16, five perturbation policies injected on the harness side of the SDF interface, preceding histories of 0..6 renders and 2..6 simultaneous renders sharing the evaluation pool; triangle/segment sequences, STL/DXF/SVG bytes and decoded 3MF content must have one digest per spec. Race reports inside render/ or the buffer code fail the check. Includes a model whose surface grazes lattice nodes (slivers that collapse in float32) with the whole 3MF package digested.',
    'Models are constructed once per process in a fixed order before any render (text/Bezier construction draws from a process-wide seeded source; that is construction, not rendering). Schedule coverage is reported as distinct observed evaluation orders, not as a fraction of the schedule space.',
    'DESIGN.md 2/C09')
 CHECKS['C13'] = ('exploration',
    'byte-level differential monitor: files written by SaveSTL / ToSTL (scripted renderer) parsed with an independent little-endian decoder and compared with an independent encoder; LoadSTL round trip compared bitwise; harness-written ASCII files loaded back',
-   'Triangle lists of length 0..5000 (20000 thorough, plus 65535/65536/65537/200000) with coordinates across the float32 range (integers, negatives, non-representable values, subnormals, +-0) are saved, streamed and loaded; length 84+50n, count field, vertex order and winding, zero attribute, right-hand unit normal (1e-6), bit-exact float32 round trip, streaming bytes == batch bytes, well-formed ASCII files in varied layouts load to what they list.',
+   'Triangle lists of length 0..5000 (20000 thorough, plus 65535/65536/65537/200000) with coordinates across the float32 range (integers, negatives, non-representable values, subnormals, +-0) are saved, streamed and loaded; length 84+50n, count field, vertex order and winding, zero attribute, right-hand unit normal (1e-6), bit-exact float32 round trip, streaming bytes == batch bytes, well-formed ASCII files in varied layouts load to what they list; files reached through symbolic links, with the temp directory on another file system or missing.',
    'Normals are judged for non-degenerate triangles only; header bytes 0..79 unconstrained; NaN/Inf/float32 overflow outside the domain.',
    'DESIGN.md 2/C13')
 CHECKS['C14'] = ('exploration',
